@@ -9,7 +9,8 @@
 From Coq Require Import List NArith Bool Permutation.
 From FIM Require Import Model.Cbm14Spec Proofs.Cbm14Assoc Proofs.Cbm14Merge Proofs.Cbm14Unmerge Proofs.Cbm14Inv
      Proofs.Cbm14Hist Proofs.Cbm14Dec.
-From FIM Require Model.Cbm14Store Model.Cbm14Check Proofs.Cbm14Frame.
+From FIM Require Model.Cbm14Store Model.Cbm14Check Model.Cbm14Abs Proofs.Cbm14Frame Proofs.Cbm14RefBase Proofs.Cbm14RefMerge
+     Proofs.Cbm14RefUnmerge Proofs.Cbm14RefSnap Proofs.Cbm14RefHist Proofs.Cbm14RefOrder.
 Import ListNotations.
 Open Scope N_scope.
 
@@ -152,6 +153,152 @@ Theorem C14_store_invariant_decidable : forall g st, Cbm14Store.goodb g st = tru
 Proof. exact Cbm14Frame.goodb_sound. Qed.
 Print Assumptions C14_store_invariant_decidable.
 
+(* ---- REFINEMENT (node part): the store-level transcription does to the nodes of the combined graph exactly
+   what the abstract model does.  Abstraction (Model/Cbm14Abs.v): abs_nodes g st = the nodes of graph g keyed by
+   NodeID with class, plain properties, contributors read from adm_graph_ids, delegations read from the two
+   delegation properties; abs_adm_nodes for a source model.  Invariant: J (internal ids unique and below
+   start_id, (GraphID, NodeID) unique) and cbm_ok (nodes of the combined graph well-formed, contributors
+   recorded once, at least one) - decidable for the initial store (rgoodb, evaluated on every correspondence case).
+   FULL statements (not proved: the CONNECTIONS are missing):
+     merge_adm cbm adm tmp st = OOk st' -> exists C', smerge (abs_cbm cbm st) (abs_adm adm st) = Some C' /\ eqv (abs_cbm cbm st') C'
+   and likewise unmerge_adm / sunmerge, snapshot, rollback.  What IS proved is the same with abs_nodes / nodes
+   in place of abs_cbm (hence `_nodes_partial`); refusal is explicit: the store model returning normally implies
+   the abstract merge is not refused (a double speaker makes both refuse). ---- *)
+Theorem C14_merge_refines_nodes_partial : forall cbm adm tmp st st',
+  Cbm14RefBase.J (Cbm14Store.s_next st) (Cbm14Store.s_nodes st) -> Cbm14RefBase.cbm_wf cbm (Cbm14Store.s_nodes st) ->
+  cbm <> tmp -> adm <> cbm -> Cbm14Store.gexists tmp st = false ->
+  Cbm14Store.merge_adm cbm adm tmp st = Cbm14Store.OOk st' ->
+  conflict (Cbm14Abs.abs_cbm cbm st) (Cbm14Abs.abs_adm adm st) = false /\
+  (forall k, getn k (Cbm14Abs.abs_nodes cbm st') =
+             getn k (merge_nodes adm (Cbm14Abs.abs_nodes cbm st) (Cbm14Abs.abs_adm_nodes adm st))) /\
+  Cbm14RefBase.J (Cbm14Store.s_next st') (Cbm14Store.s_nodes st') /\ Cbm14RefBase.cbm_wf cbm (Cbm14Store.s_nodes st') /\
+  (forall g k, g <> cbm -> g <> tmp ->
+               Cbm14RefBase.at_ g k (Cbm14Store.s_nodes st') = Cbm14RefBase.at_ g k (Cbm14Store.s_nodes st)) /\
+  (forall k, Cbm14RefBase.at_ tmp k (Cbm14Store.s_nodes st') = None).
+Proof. exact Cbm14RefMerge.merge_refines_nodes. Qed.
+Print Assumptions C14_merge_refines_nodes_partial.
+
+Theorem C14_unmerge_refines_nodes_partial : forall cbm g st,
+  Cbm14RefBase.J (Cbm14Store.s_next st) (Cbm14Store.s_nodes st) -> Cbm14RefUnmerge.cbm_ok cbm (Cbm14Store.s_nodes st) ->
+  Cbm14Store.gexists cbm st = true ->
+  exists st', Cbm14Store.unmerge_adm cbm g st = Cbm14Store.OOk st' /\
+    (forall k, getn k (Cbm14Abs.abs_nodes cbm st') = getn k (nodes (sunmerge (Cbm14Abs.abs_cbm cbm st) g))) /\
+    Cbm14RefBase.J (Cbm14Store.s_next st') (Cbm14Store.s_nodes st') /\ Cbm14RefUnmerge.cbm_ok cbm (Cbm14Store.s_nodes st') /\
+    (forall h k, h <> cbm -> Cbm14RefBase.at_ h k (Cbm14Store.s_nodes st') = Cbm14RefBase.at_ h k (Cbm14Store.s_nodes st)).
+Proof. exact Cbm14RefUnmerge.unmerge_refines_nodes. Qed.
+Print Assumptions C14_unmerge_refines_nodes_partial.
+
+Theorem C14_snapshot_refines_nodes_partial : forall cbm new st,
+  Cbm14RefBase.J (Cbm14Store.s_next st) (Cbm14Store.s_nodes st) ->
+  Cbm14Store.gexists cbm st = true -> Cbm14Store.gexists new st = false ->
+  exists st', Cbm14Store.snapshot cbm new st = Cbm14Store.OOk st' /\
+    (forall k, getn k (Cbm14Abs.abs_nodes new st') = getn k (Cbm14Abs.abs_nodes cbm st)) /\
+    (forall h k, h <> new -> Cbm14RefBase.at_ h k (Cbm14Store.s_nodes st') = Cbm14RefBase.at_ h k (Cbm14Store.s_nodes st)) /\
+    Cbm14RefBase.J (Cbm14Store.s_next st') (Cbm14Store.s_nodes st') /\
+    (Cbm14RefUnmerge.cbm_ok cbm (Cbm14Store.s_nodes st) -> Cbm14RefUnmerge.cbm_ok new (Cbm14Store.s_nodes st')).
+Proof. exact Cbm14RefSnap.snapshot_refines_nodes. Qed.
+Print Assumptions C14_snapshot_refines_nodes_partial.
+
+Theorem C14_rollback_refines_nodes_partial : forall cbm sid st,
+  Cbm14RefBase.J (Cbm14Store.s_next st) (Cbm14Store.s_nodes st) -> sid <> cbm -> Cbm14Store.gexists sid st = true ->
+  exists st', Cbm14Store.rollback cbm sid st = Cbm14Store.OOk st' /\
+    (forall k, getn k (Cbm14Abs.abs_nodes cbm st') = getn k (Cbm14Abs.abs_nodes sid st)) /\
+    (forall h k, h <> cbm -> h <> sid ->
+                 Cbm14RefBase.at_ h k (Cbm14Store.s_nodes st') = Cbm14RefBase.at_ h k (Cbm14Store.s_nodes st)) /\
+    (forall k, Cbm14RefBase.at_ sid k (Cbm14Store.s_nodes st') = None) /\
+    Cbm14RefBase.J (Cbm14Store.s_next st') (Cbm14Store.s_nodes st') /\
+    (Cbm14RefUnmerge.cbm_ok sid (Cbm14Store.s_nodes st) -> Cbm14RefUnmerge.cbm_ok cbm (Cbm14Store.s_nodes st')).
+Proof. exact Cbm14RefSnap.rollback_refines_nodes. Qed.
+Print Assumptions C14_rollback_refines_nodes_partial.
+
+(* ---- simulation for whole histories (node projection of the abstract model: merged models enter without their
+   connections): running the store model and the abstract model side by side over any history whose operations are
+   in the documented domain when executed (pre_run: fresh temporary / snapshot ids, the merged model is not
+   merged already, unmerge / snapshot of a non-empty combined graph, rollback to a live snapshot) keeps them
+   related (NSim: same nodes of the combined graph and of every live snapshot, abstract invariant HInv) ---- *)
+Theorem C14_store_simulates_nodes_partial : forall cbm ops st hs st' hs',
+  Cbm14RefHist.NSim cbm st hs -> Cbm14RefHist.pre_run cbm st hs ops ->
+  Cbm14RefHist.sim_run cbm st hs ops = Some (st', hs') ->
+  Cbm14RefHist.NSim cbm st' hs' /\ hs' = hrun hs (Cbm14RefHist.hops_run cbm st ops).
+Proof. exact Cbm14RefHist.nsim_run. Qed.
+Print Assumptions C14_store_simulates_nodes_partial.
+
+Theorem C14_store_simulation_starts : forall cbm st,
+  Cbm14RefBase.J (Cbm14Store.s_next st) (Cbm14Store.s_nodes st) -> Cbm14Store.gexists cbm st = false ->
+  Cbm14RefHist.NSim cbm st hinit.
+Proof. exact Cbm14RefHist.nsim_init. Qed.
+Print Assumptions C14_store_simulation_starts.
+
+Theorem C14_refinement_invariant_decidable : forall cbm st,
+  Cbm14Abs.rgoodb cbm st = true ->
+  Cbm14RefBase.J (Cbm14Store.s_next st) (Cbm14Store.s_nodes st) /\ Cbm14RefBase.cbm_wf cbm (Cbm14Store.s_nodes st).
+Proof. exact Cbm14RefBase.rgoodb_sound. Qed.
+Print Assumptions C14_refinement_invariant_decidable.
+
+(* ---- the abstract theorems, transferred to the STORE level (nodes of the combined graph), in every state
+   reachable by such a history (NSim cbm st hs; h_ms hs = the abstractions of the models currently merged) ---- *)
+Theorem C14_store_contributors_exact : forall cbm st hs, Cbm14RefHist.NSim cbm st hs -> forall k n g,
+  Cbm14RefBase.at_ cbm k (Cbm14Store.s_nodes st) = Some n ->
+  (In g (Cbm14Abs.abs_con (Cbm14Store.n_si n)) <->
+   exists A, In A (h_ms hs) /\ adm_id A = g /\ hasn k (adm_nodes A) = true).
+Proof. exact Cbm14RefHist.store_contributors_exact. Qed.
+Print Assumptions C14_store_contributors_exact.
+
+Theorem C14_store_union : forall cbm st hs, Cbm14RefHist.NSim cbm st hs -> forall k,
+  (exists n, Cbm14RefBase.at_ cbm k (Cbm14Store.s_nodes st) = Some n) <->
+  exists A, In A (h_ms hs) /\ hasn k (adm_nodes A) = true.
+Proof. exact Cbm14RefHist.store_union. Qed.
+Print Assumptions C14_store_union.
+
+Theorem C14_store_delegations_keyed : forall cbm st hs, Cbm14RefHist.NSim cbm st hs -> forall k n g x,
+  Cbm14RefBase.at_ cbm k (Cbm14Store.s_nodes st) = Some n ->
+  (Cbm14Abs.abs_del (Cbm14Store.n_ld n) = Some (g, x) ->
+     exists A a, In A (h_ms hs) /\ adm_id A = g /\ getn k (adm_nodes A) = Some a /\ a_ld a = Some x) /\
+  (Cbm14Abs.abs_del (Cbm14Store.n_cd n) = Some (g, x) ->
+     exists A a, In A (h_ms hs) /\ adm_id A = g /\ getn k (adm_nodes A) = Some a /\ a_cd a = Some x).
+Proof. exact Cbm14RefHist.store_delegations_keyed. Qed.
+Print Assumptions C14_store_delegations_keyed.
+
+Theorem C14_store_shared_once : forall cbm st hs, Cbm14RefHist.NSim cbm st hs ->
+  NoDup (map Cbm14Store.n_nid (Cbm14Store.of_gid cbm st)).
+Proof. exact Cbm14RefHist.store_shared_once. Qed.
+Print Assumptions C14_store_shared_once.
+
+(* merge_adm followed by unmerge_adm of the same model restores every node of the combined graph *)
+Theorem C14_store_unmerge_inverse_nodes_partial : forall cbm adm tmp st hs st1 st2,
+  Cbm14RefHist.NSim cbm st hs -> Cbm14RefHist.pre cbm (Cbm14Check.OpMerge adm tmp) st hs ->
+  Cbm14Store.merge_adm cbm adm tmp st = Cbm14Store.OOk st1 -> Cbm14Store.unmerge_adm cbm adm st1 = Cbm14Store.OOk st2 ->
+  forall k, getn k (Cbm14Abs.abs_nodes cbm st2) = getn k (Cbm14Abs.abs_nodes cbm st).
+Proof. exact Cbm14RefHist.store_unmerge_inverse_nodes. Qed.
+Print Assumptions C14_store_unmerge_inverse_nodes_partial.
+
+(* snapshot; any operations not using that snapshot id (incl. further snapshots and rollbacks to them); rollback:
+   every node of the combined graph is as it was *)
+Theorem C14_store_rollback_nodes_partial : forall cbm id mid st hs st' hs',
+  Cbm14RefHist.NSim cbm st hs ->
+  Cbm14RefHist.pre_run cbm st hs (Cbm14Check.OpSnap id :: mid ++ [Cbm14Check.OpRollback id]) ->
+  Cbm14RefHist.sim_run cbm st hs (Cbm14Check.OpSnap id :: mid ++ [Cbm14Check.OpRollback id]) = Some (st', hs') ->
+  forallb (fun o => negb (Cbm14RefHist.otouches id o)) mid = true ->
+  forall k, getn k (Cbm14Abs.abs_nodes cbm st') = getn k (Cbm14Abs.abs_nodes cbm st).
+Proof. exact Cbm14RefHist.store_rollback_nodes. Qed.
+Print Assumptions C14_store_rollback_nodes_partial.
+
+(* merging the same delegation models in two orders (each merge under its own fresh temporary id) gives combined
+   graphs with equivalent nodes; the sources must satisfy the frame invariant Good (decidable: goodb) and be
+   pairwise compatible (the abstract hypothesis of C14_order_independent, on their abstractions) *)
+Theorem C14_store_order_independent_nodes_partial : forall cbm st hs l1 l2 st1 hs1 st2 hs2,
+  Cbm14RefHist.NSim cbm st hs ->
+  Permutation (map fst l1) (map fst l2) -> ~ In cbm (map fst l1) ->
+  (forall a, In a (map fst l1) -> Cbm14Store.gexists a st = true /\ Cbm14Frame.Good a st) ->
+  pairwise_compatible (Cbm14RefOrder.adms_of st l1) ->
+  Cbm14RefHist.pre_run cbm st hs (Cbm14RefOrder.mops l1) ->
+  Cbm14RefHist.sim_run cbm st hs (Cbm14RefOrder.mops l1) = Some (st1, hs1) ->
+  Cbm14RefHist.pre_run cbm st hs (Cbm14RefOrder.mops l2) ->
+  Cbm14RefHist.sim_run cbm st hs (Cbm14RefOrder.mops l2) = Some (st2, hs2) ->
+  forall k, opt_rel eqv_node (getn k (Cbm14Abs.abs_nodes cbm st1)) (getn k (Cbm14Abs.abs_nodes cbm st2)).
+Proof. exact Cbm14RefOrder.store_order_independent_nodes. Qed.
+Print Assumptions C14_store_order_independent_nodes_partial.
+
 (* ---- non-vacuity ---- *)
 Example C14_ex_consistent_family : consistent [A1; A2; A3] /\ Forall wf_adm [A1; A2; A3].
 Proof. exact fam_A_consistent. Qed.
@@ -194,3 +341,24 @@ Example C14_ex_two_snapshots :
   h_cur (hrun hinit ([HMerge A1; HSnap 100] ++ mid ++ [HRollback 101; HRollback 100])) = h_cur s1 /\
   nodes (h_cur s1) <> nodes (h_cur s2).
 Proof. exact ex_two_snapshots. Qed.
+Example C14_ex_refinement :
+  Cbm14Abs.rgoodb 0 Cbm14Frame.ex_store = true /\ Cbm14Store.gexists 0 Cbm14Frame.ex_store = false /\
+  Cbm14RefHist.pre_run 0 Cbm14Frame.ex_store hinit Cbm14Frame.ex_sops /\
+  exists st' hs', Cbm14RefHist.sim_run 0 Cbm14Frame.ex_store hinit Cbm14Frame.ex_sops = Some (st', hs') /\
+                  map adm_id (h_ms hs') = [1] /\ map fst (nodes (h_cur hs')) = [10; 11] /\
+                  map Cbm14Store.n_nid (Cbm14Store.of_gid 0 st') = [10; 11].
+Proof. exact Cbm14RefHist.ex_refine. Qed.
+Example C14_ex_store_order :
+  let l1 := [(1, 100); (2, 101)] in let l2 := [(2, 100); (1, 101)] in
+  Cbm14RefHist.NSim 0 Cbm14Frame.ex_store hinit /\ Permutation (map fst l1) (map fst l2) /\ ~ In 0 (map fst l1) /\
+  (forall a, In a (map fst l1) -> Cbm14Store.gexists a Cbm14Frame.ex_store = true /\ Cbm14Frame.Good a Cbm14Frame.ex_store) /\
+  pairwise_compatible (Cbm14RefOrder.adms_of Cbm14Frame.ex_store l1) /\
+  Cbm14RefHist.pre_run 0 Cbm14Frame.ex_store hinit (Cbm14RefOrder.mops l1) /\
+  Cbm14RefHist.pre_run 0 Cbm14Frame.ex_store hinit (Cbm14RefOrder.mops l2) /\
+  exists st1 hs1 st2 hs2, Cbm14RefHist.sim_run 0 Cbm14Frame.ex_store hinit (Cbm14RefOrder.mops l1) = Some (st1, hs1) /\
+                          Cbm14RefHist.sim_run 0 Cbm14Frame.ex_store hinit (Cbm14RefOrder.mops l2) = Some (st2, hs2) /\
+                          map Cbm14Store.n_si (Cbm14Store.of_gid 0 st1) =
+                            [Cbm14Store.SIds [1; 2]; Cbm14Store.SIds [1; 2]; Cbm14Store.SIds [2]] /\
+                          map Cbm14Store.n_si (Cbm14Store.of_gid 0 st2) =
+                            [Cbm14Store.SIds [2; 1]; Cbm14Store.SIds [2; 1]; Cbm14Store.SIds [2]].
+Proof. exact Cbm14RefOrder.ex_order_store. Qed.
